@@ -73,7 +73,16 @@ def check_arith(acc, pendulum, u, kw, variants=True):
         acc.c["evaluations"] += 1
         if gotb != ["Time", us_fields(u)]:
             acc.mismatch("inverse", "subtract-after-add", case, gotb, ["Time", us_fields(u)])
+    pos = (kw.get("hours", 0), kw.get("minutes", 0), kw.get("seconds", 0), kw.get("microseconds", 0))
+    gotp, _rp = attempt(lambda: t.add(*pos))       # every argument positional, in the documented order
+    acc.c["evaluations"] += 1
+    if gotp != ["Time", exp]:
+        acc.mismatch("add", "positional", case, gotp, ["Time", exp])
     exp_s = us_fields((u - A) % DAYUS)
+    gotp, _rp = attempt(lambda: t.subtract(*pos))
+    acc.c["evaluations"] += 1
+    if gotp != ["Time", exp_s]:
+        acc.mismatch("subtract", "positional", case, gotp, ["Time", exp_s])
     got2, r2 = attempt(lambda: t.subtract(**kw))
     acc.c["evaluations"] += 1
     if got2 != ["Time", exp_s]:
